@@ -171,6 +171,7 @@ P = {
 "C14": dict(
   decided={
     "C15.i": "releasing the per-object records, evaluated on a sample (records {1,2,9}, ids [1,2] recorded by this parser): exactly the parser's own records are removed, finished or not, and no others",
+    "C15.j": "by evaluation of _cached_model_ids / _call_model_processors on a meta-model object with an interpreted global repository: when a model processor fails exactly the models this load added are removed and the error propagates, the models cached before stay (same objects); nothing is removed when no processor fails",
     "C14.i": "restore is idempotent per parser: the 'replaced' flag is cleared before any nesting counter is decremented, on every path and unconditionally (a repeated restore for the same parser does nothing)",
     "C14.h": "postponed initialisation: the per-object record is removed from _tx_obj_attrs before the collected attributes are applied to the object and before __init__ runs (the instrumented __setattr__ routes by the record's presence)",
     "C14.a": "obligation O1: attribute-method instrumentation of user classes is restored on every exit of every load for every model under construction; no release without acquire",
@@ -229,6 +230,7 @@ P = {
     "C17.g": "ImportURI connects a model to the metamodel's global repository whenever there is one (no further condition)",
     "C17.h": "with a global repository the cache is consulted for every load, direct or nested",
     "C17.e": "ImportURI recognises an object found in the own / a loaded / a builtin model by None-test, so the documented lookup order is not skipped for falsy objects",
+    "C17.m": "the repositories as a state machine, by evaluation (classes instantiated by interpreting their __init__, stand-in meta-model): a file is loaded once and later loads return the same object; the model is registered under its file whether or not the pre-reference-resolution callback ran; it is visible in local_models only when asked for; a loaded model's own repository shares all_models; string-loaded models get one invented name each",
   },
   declined="identity of cross-file targets and file-open counts for arbitrary import graphs",
   technique="CFG dominance + decision table + key-normalisation dataflow"),
@@ -244,6 +246,7 @@ P = {
     "C18.e": "the construction marker is tested for existence, not for its value",
     "C18.f": "ModelRepository.remove_model locates the entry by the stored model (string-loaded models live under synthetic keys)",
     "C18.g": "per-load snapshots used by failure handlers are frame-local (loads nest through imports)",
+    "C18.j": "by evaluation: remove_model / remove_models remove exactly the given models from both tables, also a model without file name; after a failing load the file is not visible in local_models",
   },
   declined="'the next load succeeds with correct identities'",
   technique="obligation ledger over exceptional CFG exits through the call graph"),
@@ -312,6 +315,8 @@ P = {
   decided={
     "C25.h": "the 'redefined imported rule' error for user classes depends only on the user class being found and its rule name having been used before",
     "C25.i": "by evaluation of _init_class: the class's own qualified name is <current namespace>.<rule name> and the current namespace maps the rule name to the class, whatever qualified name the class inherits or carried before",
+    "C25.j": "by evaluation of _namespace_for_file_name on a meta-model object built by interpreting __init__: the namespace of the main grammar file is its file name without the extension, whatever letters the name ends in",
+    "C25.k": "by evaluation of visit_reference_stm: a reference statement makes the language known under its alias (or, without alias, under its own name) and under nothing else",
     "C25.a": "unqualified lookup: current namespace first, then imported namespaces in list order, first hit",
     "C25.b": "import once; namespace registered before the imported file is loaded (cycle cut)",
     "C25.c": "imported namespaces are appended in import order",
@@ -338,6 +343,7 @@ P = {
 "C27": dict(
   decided={
     "C27.e": "_tx_model_params is assigned only inside the two kwargs_callback functions (a cached model keeps the parameters of the load that built it)",
+    "C27.f": "by evaluation of the classes of model_params.py (instantiated by interpreting their __init__): a declared parameter is accepted by check_params in exactly its own spelling, another spelling or an undeclared name is a TextXError; ModelParams hands out the values it was given (also None and 0) under their own names and exposes all of them",
     "C27.a": "every public load entry checks the parameters before any model is loaded",
     "C27.b": "every call of a loading API forwards model_params derived from the importing model / the caller's parameter",
     "C27.c": "_tx_model_params is set before the user callback and for every model",
